@@ -162,7 +162,7 @@ def train_nature_dqn(
             termination=terminated,
         )
 
-        if step > batch_size:
+        if step > batch_size and step >= learning_starts:
             if step % update_frequency == 0:
                 transition_batch = replay_buffer.sample_batch(batch_size, rng)
                 q_loss, q_mean = train_step(
